@@ -4,6 +4,9 @@
 #pragma once
 #include "view_model.hpp"
 #include "view_oracle.hpp"
+#ifdef VM_FANCY
+#include "fancy_ptr.hpp"
+#endif
 
 namespace vr {
 using namespace vm;
@@ -27,11 +30,29 @@ inline std::string sizes_str(std::vector<idx> const& sizes) { std::string p; for
 template<int D>
 void run_shape(std::vector<idx> const& sizes, bool owning, Config const& cfg, std::set<std::string> const& skip) {
 	idx N = 1; for(auto s : sizes) { N *= s; }
-	std::string name = (owning ? "array<int," : "array_ref<int,") + std::to_string(D) + ">{";
+	std::string name = (owning ? "array<int," : "array_ref<int,") + std::to_string(D) + ">{";  // (VM_FANCY rewrites the prefix)
 	for(std::size_t i = 0; i < sizes.size(); ++i) { name += (i ? "," : ""); name += std::to_string(sizes[i]); }
 	name += "}";
 	std::string prefix = sizes_str(sizes) + (owning ? "/o/" : "/r/");
 	auto exts = vo::make_extensions<D>(sizes);
+#ifdef VM_FANCY
+	// C11: the same roots over a user-defined pointer type with provenance tracking (array_ref over a custom pointer)
+	if(owning) { return; }
+	{
+		vo::GuardBuffer<int> g(N);
+		for(idx i = 0; i < N; ++i) { g.data()[i] = static_cast<int>(1000 + i); }
+		fancy::g = fancy::Stats{};
+		multi::array_ref<int, D, fancy::ptr<int>> a(exts, fancy::make(g.data(), N));
+		name = "array_ref<int," + std::to_string(D) + ",fancy::ptr<int>>" + name.substr(name.find('{'));
+		run_root<D>(a, g.data(), N, sizes, name, prefix, cfg, skip);
+		if(!g.intact()) { mc::R.violation("D" + std::to_string(D) + "|guard", mc::J().s("root", name).s("detail", "guard elements modified").str()); }
+		mc::R.add("fancy_dereferences", fancy::g.deref);
+		if(fancy::g.oob_deref || fancy::g.null_deref || fancy::g.null_arith) {
+			mc::R.violation("D" + std::to_string(D) + "|fancy-pointer|" + (fancy::g.oob_deref ? "dereference-outside-storage" : fancy::g.null_deref ? "null-dereference" : "null-arithmetic"),
+				mc::J().s("root", name).s("replay", prefix).s("detail", fancy::g.first).n("out_of_bounds_dereferences", fancy::g.oob_deref).n("null_dereferences", fancy::g.null_deref).n("null_arithmetic", fancy::g.null_arith).str());
+		}
+	}
+#else
 	if(owning) {
 		multi::array<int, D> a(exts);
 		for(idx i = 0; i < N; ++i) { a.data_elements()[i] = static_cast<int>(1000 + i); }
@@ -43,6 +64,7 @@ void run_shape(std::vector<idx> const& sizes, bool owning, Config const& cfg, st
 		run_root<D>(a, g.data(), N, sizes, name, prefix, cfg, skip);
 		if(!g.intact()) { mc::R.violation("D" + std::to_string(D) + "|guard", mc::J().s("root", name).s("detail", "guard elements modified").str()); }
 	}
+#endif
 }
 
 inline void dispatch(Shape const& sh, bool owning, Config const& cfg, std::set<std::string> const& skip) {
@@ -72,8 +94,12 @@ int replay_shape(std::vector<idx> const& sizes, bool owning, Hist const& h, F&& 
 		if(!reached) { std::printf("REPLAY trace not expressible on this tree\n"); rc = 2; }
 	};
 	auto exts = vo::make_extensions<D>(sizes);
+#ifdef VM_FANCY
+	{ (void)owning; vo::GuardBuffer<int> g(N); for(idx i = 0; i < N; ++i) { g.data()[i] = static_cast<int>(1000 + i); } multi::array_ref<int, D, fancy::ptr<int>> a(exts, fancy::make(g.data(), N)); go(a, g.data()); }
+#else
 	if(owning) { multi::array<int, D> a(exts); for(idx i = 0; i < N; ++i) { a.data_elements()[i] = static_cast<int>(1000 + i); } go(a, a.data_elements()); }
 	else { vo::GuardBuffer<int> g(N); for(idx i = 0; i < N; ++i) { g.data()[i] = static_cast<int>(1000 + i); } multi::array_ref<int, D> a(exts, g.data()); go(a, g.data()); }
+#endif
 	return rc;
 }
 template<class F>
